@@ -313,6 +313,9 @@ pub fn run(report: &Report) {
     super::pyfront::sweep(report, "symbol", if q { 3 } else { 4 },
         "Python symbol.StackCoder / QueueEncoder with every Huffman book of the sweep and every message up to 3 symbols: a twin on which get_compressed_and_bitrate and get_decoder are called between all symbols gives the same words and bit rate",
         &["inspections"], &[]);
+    super::pyfront::sweep(report, "views", 3,
+        "Python: an array returned by get_compressed / get_remainders / get_compressed_and_bitrate is a value: using the coder afterwards (40 steps, across reallocations) does not change it, and writing to it does not change the coder",
+        &["returned array"], &[]);
     super::pyfront::sweep(report, "misuse", 0,
         "Python AnsCoder.get_compressed(unseal=True) on coders that are not in a sealed state (new, loaded from compressed words): the view must be refused like the export it stands for, and leave the coder unchanged",
         &["unseal=True"], &[]);
